@@ -282,9 +282,12 @@ func trySegDamage(c *SegCase, st *Stats, dir, lp, ip string, d segDamage, di int
 			cfail("recover", "Recover is not a byte-for-byte no-op on an undamaged segment")
 		}
 	}
-	for _, n := range dirNames(dir) {
-		if n != filepath.Base(lp) && n != filepath.Base(ip) {
-			cfail("recover", "Recover left file %s behind", n)
+	if wantCheckOK && !viaOpen {
+		// the no-op clause: nothing may appear next to an undamaged segment either
+		for _, n := range dirNames(dir) {
+			if n != filepath.Base(lp) && n != filepath.Base(ip) {
+				cfail("recover", "Recover on an undamaged segment left file %s behind", n)
+			}
 		}
 	}
 	if err := klevdb.Check(dir, opts); err != nil {
